@@ -158,11 +158,47 @@ static void write_routes (int format, int ch)
 	free (pb) ; free (fb) ; unlink (path) ; unlink (path2) ; mv_free (&m) ;
 }
 
+/* opens that sf_open_fd must refuse: whatever the reason, a descriptor passed with close_desc = 0 still belongs to the caller */
+static void refused_fd_opens (void)
+{	static const char *what [] = { "SD2 for write", "SD2 for read", "unwritable format", "garbage for read", "empty for read", "bad mode", "CAF at offset 7", "zero channels", "W64 at offset 3 for write", "SD2 for rdwr" } ;
+	char path [400] ; int k, cd ; snprintf (path, sizeof (path), "%s/refused_%d.dat", scratch, (int) getpid ()) ;
+	for (k = 0 ; k < 10 ; k++) for (cd = 0 ; cd < 2 ; cd++)
+	{	int fd, mode = SFM_READ, before [256], after [256], nb, na, closed, j, i ; SF_INFO si ; SNDFILE *s ; memset (&si, 0, sizeof (si)) ;
+		put_file (path, "this is certainly not a sound file, just text that is long enough to be looked at by every detector", k == 4 ? 0 : 96, NULL, 0, NULL, 0) ;
+		fd = open (path, O_RDWR) ; if (fd < 0) continue ;
+		switch (k)
+		{	case 0 : mode = SFM_WRITE ; si.format = SF_FORMAT_SD2 | SF_FORMAT_PCM_16 ; si.channels = 2 ; si.samplerate = 8000 ; break ;
+			case 1 : mode = SFM_READ ; si.format = SF_FORMAT_SD2 | SF_FORMAT_PCM_16 ; break ;
+			case 2 : mode = SFM_WRITE ; si.format = SF_FORMAT_WAV | SF_FORMAT_DWVW_12 ; si.channels = 1 ; si.samplerate = 8000 ; break ;
+			case 3 : case 4 : mode = SFM_READ ; break ;
+			case 5 : mode = 0x999 ; break ;
+			case 6 : { MEMF m ; if (vh_make_file (&m, SF_FORMAT_CAF | SF_FORMAT_PCM_16, 1, 8000, 50, 1) == 0) { close (fd) ; put_file (path, "1234567", 7, m.d, (long) m.len, NULL, 0) ; fd = open (path, O_RDWR) ; lseek (fd, 7, SEEK_SET) ; } mv_free (&m) ; mode = SFM_READ ; } break ;
+			case 7 : mode = SFM_WRITE ; si.format = SF_FORMAT_WAV | SF_FORMAT_PCM_16 ; si.channels = 0 ; si.samplerate = 8000 ; break ;
+			case 8 : mode = SFM_WRITE ; lseek (fd, 3, SEEK_SET) ; si.format = SF_FORMAT_W64 | SF_FORMAT_PCM_16 ; si.channels = 1 ; si.samplerate = 8000 ; break ;
+			default : mode = SFM_RDWR ; si.format = SF_FORMAT_SD2 | SF_FORMAT_PCM_16 ; si.channels = 2 ; si.samplerate = 8000 ; break ;
+			}
+		nb = fd_list (before, 256) ;
+		s = sf_open_fd (fd, mode, &si, cd) ;
+		vh_stat ("refused_fd_opens_tried", 1) ;
+		if (s) { vh_statf (1, "refused_fd_open_accepted:%s", what [k]) ; sf_close (s) ; if (fcntl (fd, F_GETFD) != -1) close (fd) ; continue ; }
+		closed = (fcntl (fd, F_GETFD) == -1) ; na = fd_list (after, 256) ;
+		if (!cd && closed) vh_viol (vh_key ("C14|close-desc|failed-open-closed-callers-descriptor|%s", what [k]), "sf_open_fd (%s, close_desc=0) failed (%s) and closed the caller's descriptor", what [k], sf_strerror (NULL)) ;
+		else vh_stat (cd ? (closed ? "refused_open_close_desc_1_closed" : "refused_open_close_desc_1_left_open") : "refused_open_close_desc_0_left_open", 1) ;
+		if (sf_error (NULL) == 0) vh_viol (vh_key ("C14|refused-fd-open-no-error|%s", what [k]), "sf_open_fd returned NULL but sf_error (NULL) is 0") ;
+		for (i = 0, j = 0 ; i < nb ; i++) if (before [i] != fd) before [j++] = before [i] ; nb = j ;
+		for (i = 0, j = 0 ; i < na ; i++) if (after [i] != fd) after [j++] = after [i] ; na = j ;
+		if (!same_fds (before, nb, after, na)) vh_viol (vh_key ("C14|fd-table|refused-open|%s", what [k]), "the set of open descriptors (other than the one passed in) changed across a refused sf_open_fd") ;
+		if (!closed) close (fd) ;
+		}
+	unlink (path) ;
+}
+
 int main (int argc, char **argv)
 {	int f, c, v ; const char *sd ;
 	vh_init (argc, argv, "c14_routes", "C14") ;
 	vh_enum_formats () ;
 	sd = getenv ("VERIF_SCRATCH_DIR") ; snprintf (scratch, sizeof (scratch), "%s/c14_%d", sd ? sd : ".", (int) getpid ()) ; mkdir (scratch, 0700) ;
+	if (vh_case ("opens that sf_open_fd refuses, close_desc 0 and 1")) { vh_distinct (0xFD0) ; vh_sample ("10 kinds of refused sf_open_fd (SD2 in every mode, unwritable format, garbage, empty, bad mode, embedding in CAF/W64, zero channels) x close_desc 0/1: the caller's descriptor must stay open when close_desc = 0") ; refused_fd_opens () ; }
 	for (f = 0 ; f < vh_nfmts ; f++) for (c = 1 ; c <= 2 ; c++)
 	{	int format = vh_fmts [f].format ;
 		if (vh_fmts [f].major == SF_FORMAT_SD2 || !vh_accepts (format, c, 8000)) continue ;
